@@ -28,9 +28,9 @@ def gen(rng, tier):
     mc_trunc = {"mc_iterations": 6, "mc_truncation_steps": 1, "mc_tolerance": 0.35}   # truncation really depends on mean_score
     fixed = [("neighbor", {}, "default", "knn"), ("neighbor", {}, "grouped", "knn"), ("neighbor", {}, "join", "knn"),
              ("neighbor", {"nn_k": 2}, "grouped", "knn"),
-             ("bruteforce", {}, "default", "rtree"), ("bruteforce", {}, "grouped", "sgd"),
+             ("bruteforce", {}, "default", "rtree"), ("bruteforce", {}, "grouped", "dummy"),
              ("montecarlo", mc_trunc, "default", "rtree"), ("montecarlo", mc_trunc, "grouped", "rtree"),
-             ("montecarlo", mc_trunc, "default", "sgd"), ("montecarlo", {"mc_iterations": 6}, "join", "rtree"),
+             ("montecarlo", mc_trunc, "default", "dummy"), ("montecarlo", {"mc_iterations": 6}, "join", "rtree"),
              ("montecarlo", {"mc_iterations": 5, "mc_truncation_steps": 0}, "default", "knn")]
     combos = list(fixed)
     if tier == "thorough":
